@@ -225,6 +225,16 @@ func (t *trajSpace) Build(path []Op) (*World, error) {
 	w.St = NewStorage(w.Ledger)
 	w.Conts = cloneConts(t.seedSt.conts)
 	w.Serial = t.seedSt.serial
+	if t.spec.Has("crash") {
+		w.TrackCommits = true
+		w.KeyStorage = true
+		w.CommittedConts = cloneConts(w.Conts)
+		w.CommittedLedger = w.Ledger.Snapshot()
+	}
+	if t.spec.Has("twin") {
+		w.KeyStorage = true
+		w.TwinBase = func() (*World, error) { return t.Build(nil) }
+	}
 	for _, op := range path {
 		if err := w.Apply(op); err != nil {
 			return nil, err
@@ -312,6 +322,7 @@ func (t *trajSpace) Ops(w *World) []Op {
 		if n > 0 && t.spec.Has("pop") {
 			ops = append(ops, Op{K: "pop", C: 0})
 		}
+		ops = append(ops, t.eventOps()...)
 		return ops
 	}
 	// maps: positions refer to the digest order; present keys sorted by digest
@@ -356,6 +367,24 @@ func (t *trajSpace) Ops(w *World) []Op {
 	}
 	if n > 0 && t.spec.Has("pop") {
 		ops = append(ops, Op{K: "pop", C: 0})
+	}
+	ops = append(ops, t.eventOps()...)
+	return ops
+}
+
+func (t *trajSpace) eventOps() []Op {
+	var ops []Op
+	for _, ev := range t.spec.Oracles {
+		switch ev {
+		case "ev:commit":
+			ops = append(ops, Op{K: "commit", N: 1}, Op{K: "commit", N: 3}, Op{K: "ncommit", N: 2})
+		case "ev:commit1":
+			ops = append(ops, Op{K: "commit", N: 1})
+		case "ev:cdrop":
+			ops = append(ops, Op{K: "cdrop"})
+		case "ev:creopen":
+			ops = append(ops, Op{K: "creopen"})
+		}
 	}
 	return ops
 }
